@@ -43,6 +43,10 @@ Next == \/ /\ d.stage = "build" /\ Len(d.segs) < MaxSegs
         \/ /\ d.stage = "padded"
            /\ \E cf \in Configs, cs \in CapSels :
                  d' = [stage |-> "picked", segs |-> d.segs, codec |-> cf[1], level |-> cf[2], cap |-> cs]
+        \* the single successor of a picked case is where it is emitted (in simulation mode TLC
+        \* evaluates invariants on every enabled successor but follows only one)
+        \/ /\ d.stage = "picked"
+           /\ d' = [d EXCEPT !.stage = "emit"]
 
 (* ---- named constant sets (the .cfg language has no tuples): used as  X <- Name ------- *)
 PadNone   == {<<0, "none">>}
@@ -62,5 +66,5 @@ CapTight  == {"bm1", "b"}
 
 WellFormed == DescOk(d.segs)
 Emit == PrintT(ToJson([desc |-> d.segs, n |-> DescLen(d.segs), codec |-> d.codec, level |-> d.level, cap |-> d.cap]))
-EmitInv == WellFormed /\ (d.stage # "picked" \/ Emit)
+EmitInv == WellFormed /\ (d.stage # "emit" \/ Emit)
 =============================================================================
